@@ -12,17 +12,19 @@ def h_subject(a, inst):
     return equal_snap(real, ref)
 
 
+EXTRA_MODULES = ["harness.C20gt"]  # threads: a subscriber racing the producer (gate threads)
 ENCODED = ["reactivex/subject/subject.py", "reactivex/subject/innersubscription.py", "reactivex/observer/observer.py",
            "reactivex/observer/autodetachobserver.py", "reactivex/observable/observable.py"]
 BOUNDS = {"quick": "every call history of length 5 over the 12-op alphabet (subscribe/unsubscribe of 2 observers, on_next, on_error, "
-                   "on_completed, dispose, 4 one-shot in-callback actions: unsubscribe self / other, subscribe a third observer)",
+                   "on_completed, dispose, 4 one-shot in-callback actions: unsubscribe self / other, subscribe a third observer); threads (GT): a subscriber thread (subscribe, or subscribe and unsubscribe at once) racing a producer thread over 4 sequences, 2 ordered preemptions at instruction-level yield points of the subject modules",
           "thorough": "length 6"}
-ASSUMES = ["reference subject written from the statement: delivery to the snapshot of subscribers at call time; an observer "
+ASSUMES = ["threads: gate-aware RLock shims; the late subscriber must receive one of the sequential outcomes (a prefix of one when it unsubscribes), the early subscriber everything, nothing may raise", "reference subject written from the statement: delivery to the snapshot of subscribers at call time; an observer "
            "unsubscribed by an earlier callback of the same delivery is not called (C03: unsubscribing silences); an observer "
            "subscribed during a delivery does not get that notification",
            "a DisposedException raised by subscribe() and one routed to the observer's on_error are treated as the same fact",
            "single thread; in-callback actions limited to the three listed; no re-entrant emission"]
 MANIFEST = {
+    "engine": "XH+GT",
     "text": "Bounded symbolic model checking over call histories: the history is a list of solver-chosen op codes, executed on the real "
             "Subject and on a reference subject written from the statement; per-observer logs and exceptions must agree; the path tree "
             "(one path per distinguishable history) is exhausted.",
